@@ -104,6 +104,7 @@ func main() {
 					}
 				}()
 				registry[id](c)
+				errDiscipline(c)
 			}()
 			if r := c.Finish(*verif, start, seed, buildExplanation(c)); r != 0 {
 				rc = 1
@@ -134,6 +135,7 @@ func main() {
 			}
 		}()
 		f(c)
+		errDiscipline(c)
 	}()
 	expl := buildExplanation(c)
 	os.Exit(c.Finish(*verif, start, seed, expl))
